@@ -7,3 +7,6 @@ import ZckModel.Compint
 import ZckModel.Pred.C20
 import ZckModel.Range
 import ZckModel.Pred.C10
+import ZckModel.Sha.Spec
+import ZckModel.Sha.Bundled
+import ZckModel.Pred.C18
